@@ -444,6 +444,30 @@ def eval_small(e, env):
     if isinstance(e, (ast.Set, ast.Tuple, ast.List)):
         vals = [eval_small(x, env) for x in e.elts]
         return frozenset(vals) if isinstance(e, ast.Set) else tuple(vals)
+    if isinstance(e, (ast.ListComp, ast.GeneratorExp, ast.SetComp)):
+        # comprehensions over evaluable iterables (several generators, filters): used for small index tables such as [(i, j) for i in range(3) for j in range(i + 1, 3)]
+        out = []
+
+        def gen(k, env_):
+            if k == len(e.generators):
+                out.append(eval_small(e.elt, env_))
+                return
+            g = e.generators[k]
+            for item in eval_small(g.iter, env_):
+                e2 = dict(env_)
+                if isinstance(g.target, ast.Name):
+                    e2[g.target.id] = item
+                elif isinstance(g.target, (ast.Tuple, ast.List)) and all(isinstance(t, ast.Name) for t in g.target.elts) and isinstance(item, tuple) and len(item) == len(g.target.elts):
+                    for t, v in zip(g.target.elts, item):
+                        e2[t.id] = v
+                else:
+                    raise Undecidable("comprehension target")
+                if all(eval_small(c, e2) for c in g.ifs):
+                    gen(k + 1, e2)
+                if len(out) > 500:
+                    raise Undecidable("comprehension too large")
+        gen(0, env)
+        return frozenset(out) if isinstance(e, ast.SetComp) else tuple(out)
     if isinstance(e, ast.UnaryOp):
         v = eval_small(e.operand, env)
         if isinstance(e.op, ast.Invert) and isinstance(v, Mat):
